@@ -174,9 +174,9 @@ theorem C08_identity_stable (cfg : Cfg) (ps : PS) (r : Req) :
   step_identity cfg ps r
 
 /-- **Bystanders are invisible.**  Connections being made and lost and other (refused) requests on other
-    connections leave the pair-setup state unchanged: a history of events (in which the owner does not
-    unpair the accessory) behaves exactly like the sequence of its pair-setup requests. -/
-theorem C08_bystanders_invisible (cfg : Cfg) (ps : PS) (evs : List Ev) (hu : ∀ e ∈ evs, e ≠ Ev.unpair) :
+    connections leave the pair-setup state unchanged: a history of events (in which the owner neither
+    unpairs the accessory nor changes the setup code) behaves exactly like the sequence of its pair-setup requests. -/
+theorem C08_bystanders_invisible (cfg : Cfg) (ps : PS) (evs : List Ev) (hu : ∀ e ∈ evs, e.isOwner = false) :
     runEv cfg ps evs = run cfg ps (reqsOf evs) :=
   runEv_eq_run cfg evs ps hu
 
@@ -186,7 +186,7 @@ theorem C08_bystanders_invisible (cfg : Cfg) (ps : PS) (evs : List Ev) (hu : ∀
     abandoned or completed-but-unrecorded exchange).  A bystander's own pair-setup request is excluded:
     any connection may replace the single SRP session with its M1 (DESIGN §9). -/
 theorem C08_complete_interleaved (cfg : Cfg) (ps0 : PS) (salt bRand : Bytes) (a : Nat)
-    (ident cltpk csig u s2 b2 s3 b3 : Bytes) (evs : List Ev) (hu : ∀ e ∈ evs, e ≠ Ev.unpair)
+    (ident cltpk csig u s2 b2 s3 b3 : Bytes) (evs : List Ev) (hu : ∀ e ∈ evs, e.isOwner = false)
     (hp : ps0.paired = []) (hN : 1 < cfg.G.N) (hg : Nat.Coprime cfg.G.g cfg.G.N)
     (ok : CryptoOK cfg.c ps0.ltpk) (huuid : cfg.c.uuidOf ident = some u) :
     let srv := Srp.mk cfg.c.H cfg.G SRP_USER ps0.pincode salt (bytesToNat bRand)
